@@ -48,7 +48,7 @@ CHECKS["C15"] = dict(
    design="4/C15")
 CHECKS["C04"] = dict(
    technique="generated and mutated byte strings through every entry point in a child process with debug assertions and overflow checks; panics caught and shrunk by proptest, process death bisected, per-input time budget",
-   text="800k (quick) / 20M (thorough) byte strings - random bytes, mutants of generated and corpus documents incl. invalid UTF-8, structure-aware extremes, plus every truncation of every corpus document <= 400 bytes - go through 20 entry points and everything a caller can do with the result. No panic, no process death; a time-budget overrun is reported as inconclusive. Sampled exploration; absence of hangs is only observed, not proved.",
+   text="800k (quick) / 20M (thorough) byte strings - random bytes, mutants of generated and corpus documents incl. invalid UTF-8, structure-aware extremes, plus every truncation of every corpus document <= 400 bytes - go through 20 entry points and everything a caller can do with the result. No panic, no process death; a time-budget overrun - or a worker that marks no new input for 150 s (a hang) - is reported as inconclusive with the inputs in flight named. Sampled exploration; absence of hangs is only observed, not proved.",
    note="debug-assertions and overflow-checks on (profile chk); termination judged by a generous wall-clock budget (exit 2 when exceeded)",
    design="4/C04")
 CHECKS["C05"] = dict(
@@ -73,7 +73,7 @@ CHECKS["C06"] = dict(
    design="4/C06")
 CHECKS["C16"] = dict(
    technique="stateful model-based testing: generated call histories interpreted in lock step against a reference ordered map with explicit placeholders / Vec, invariant and return values compared after every call; histories shrink as one value",
-   text="60k (quick) / 1.5M (thorough) histories of up to 40 calls per container kind (Table, InlineTable, dyn TableLike over both, Array, ArrayOfTables, toml::Map in the sorted and the preserve_order build): every return value and the full observable state (len, is_empty, iter, lookups, get_values, printed text) must equal the reference after every call.",
+   text="60k (quick) / 1.5M (thorough) histories of up to 40 calls per container kind (Table, InlineTable, dyn TableLike over both, Array, ArrayOfTables, toml::Map in the sorted and the preserve_order build): every return value and the full observable state (len, is_empty, iter forwards and backwards, lookups on the container and through the Item holding it, get_values, printed text) must equal the reference after every call.",
    note="return values of calls made on a placeholder slot are left open by the property and not compared (counted); toml::Map under preserve_order runs in a second build of the harness",
    design="4/C16")
 CHECKS["C08"] = dict(
